@@ -197,4 +197,42 @@ theorem firstMatch_split (E : Env) (pre : List Rule) (r : Rule) (post : List Rul
     simp only [List.cons_append, firstMatch, matchAt, hx, List.head?_nil]
     exact ih (fun y hy => hpre y (by simp [hy]))
 
+/-! ## locating a rule in the table by its content, not by its index -/
+
+/-- the rule `r` occurs in the table and every rule before its first occurrence satisfies `pre` -/
+def firstWith (pre : Rule → Bool) (r : Rule) : List Rule → Bool
+  | [] => false
+  | x :: xs => if x == r then true else pre x && firstWith pre r xs
+
+theorem firstWith_spec (pre : Rule → Bool) (r : Rule) : ∀ rules, firstWith pre r rules = true →
+    ∃ front back, rules = front ++ r :: back ∧ ∀ x ∈ front, pre x = true := by
+  intro rules
+  induction rules with
+  | nil => intro h; simp [firstWith] at h
+  | cons x xs ih =>
+    intro h
+    simp only [firstWith] at h
+    split at h
+    · rename_i hx
+      have : x = r := by simpa using hx
+      subst this
+      exact ⟨[], xs, rfl, by simp⟩
+    · simp only [Bool.and_eq_true] at h
+      obtain ⟨front, back, hxs, hf⟩ := ih h.2
+      refine ⟨x :: front, back, by simp [hxs], ?_⟩
+      intro y hy
+      simp only [List.mem_cons] at hy
+      rcases hy with rfl | hy
+      · exact h.1
+      · exact hf y hy
+
+/-- the scan step, given the table as `front ++ r :: back` -/
+theorem firstMatch_first (E : Env) (pre : Rule → Bool) (r : Rule) (rules : List Rule) (p : Nat)
+    (hfw : firstWith pre r rules = true) (hpre : ∀ x, pre x = true → derivs E x.re ⟨p, []⟩ = [])
+    (st : St) (more : List St) (hr : derivs E r.re ⟨p, []⟩ = st :: more) :
+    firstMatch E rules p = some (r.act, st.pos) := by
+  obtain ⟨front, back, hrules, hf⟩ := firstWith_spec pre r rules hfw
+  rw [hrules]
+  exact firstMatch_split E front r back p (fun x hx => hpre x (hf x hx)) st more hr
+
 end Sql
